@@ -37,3 +37,4 @@ func verifMarshalOf(s string, v interface{}) bool
 func verifAbstractFloat() float64
 func verifGrammarAccepts(types []tokType) bool
 func verifFinite(x float64) bool
+func verifFingerprint(v interface{}) string
